@@ -257,6 +257,16 @@ Definition rstep (w : rworld) (op : tree) : rworld * tree :=
           ({| rw_conns := sm_insert k c' (rw_conns w); rw_server := Some s' |}, st c')
       | _, _ => (w, T_UNRESOLVED)
       end
+  | TL [TN 39; TN id; TN k] =>
+      match rw_server w, sm_find k (rw_conns w) with
+      | Some s, Some c =>
+          match process_local_client s id c with
+          | Ok (s', c', ok) => ({| rw_conns := sm_insert k c' (rw_conns w); rw_server := Some s' |}, TL [tbool ok; st c'])
+          | _ => (w, T_PANIC)
+          end
+      | _, _ => (w, T_UNRESOLVED)
+      end
+  | TL [TN 42] => on_server w (fun s => Ok (s, TL [TN (connected_clients s); tbool (has_connections s)]))
   (* server-level wrappers, to exercise their own lookups *)
   | TL [TN 32; TN id; TN ch; TB m] => on_server w (fun s => do s' <- srv_send_message s id ch m; Ok (s', TL []))
   | TL [TN 33; TN id; TN ch] => on_server w (fun s => do r <- srv_receive_message s id ch; let (s', m) := r in Ok (s', topt TB m))
